@@ -89,7 +89,7 @@ fn died(out: &mut Outcome, prop: &str, t: &Trace, who: &str) -> bool {
 
 fn gen_c10(seed: u64, tier: Tier) -> Scenario {
     let (mut rng, mut sc) = base("C10", seed);
-    let dom = Dom::default();
+    let dom = Dom { custom_kernels: true, ..Dom::default() };
     sc.config = gen_config(&mut rng, &dom);
     sc.signal = gen_signal(&mut rng);
     let n = ops_budget(&sc.config, tier_budget(tier), 6, q(tier, 70, 100), &mut rng);
@@ -234,7 +234,7 @@ pub fn gen_chunk_val(rng: &mut Rng, max: usize) -> ChunkVal {
 
 fn gen_c13(seed: u64, tier: Tier) -> Scenario {
     let (mut rng, mut sc) = base("C13", seed);
-    let dom = Dom { edges: false, ..Dom::default() };
+    let dom = Dom { edges: false, custom_kernels: true, ..Dom::default() };
     sc.config = gen_config(&mut rng, &dom);
     sc.signal = gen_signal(&mut rng);
     let n = ops_budget(&sc.config, tier_budget(tier), 6, q(tier, 40, 80), &mut rng);
@@ -383,7 +383,7 @@ fn eval_c13(sc: &Scenario) -> Outcome {
 
 fn gen_c12(seed: u64, tier: Tier) -> Scenario {
     let (mut rng, mut sc) = base("C12", seed);
-    let dom = Dom { edges: false, ..Dom::default() };
+    let dom = Dom { edges: false, custom_kernels: true, zero_channels: true, ..Dom::default() };
     sc.config = gen_config(&mut rng, &dom);
     // make "interesting" original/max pairs frequent
     if rng.chance(0.3) {
@@ -548,7 +548,7 @@ fn eval_c12(sc: &Scenario) -> Outcome {
             Op::Process { .. } => {
                 if let (Some(n), StepRes::Proc { n_in, n_out }) = (pending_chunk, &s.res) {
                     let got = if cfg.kind == Kind::SincIn { *n_in } else { *n_out };
-                    if cfg.kind.is_sinc() && got != n && !(cfg.mask.as_ref().map(|m| m.iter().all(|x| !x)).unwrap_or(false)) {
+                    if cfg.kind.is_sinc() && got != n && got != usize::MAX && !(cfg.mask.as_ref().map(|m| m.iter().all(|x| !x)).unwrap_or(false)) {
                         out.push("C12", "accepted-chunk-size-not-applied", s.op, format!("after set_chunk_size({}) the next call consumed/produced {}", n, got));
                         return out;
                     }
@@ -585,7 +585,7 @@ fn eval_c12(sc: &Scenario) -> Outcome {
 
 fn gen_c16(seed: u64, tier: Tier) -> Scenario {
     let (mut rng, mut sc) = base("C16", seed);
-    let dom = Dom { edges: false, ..Dom::default() };
+    let dom = Dom { edges: false, custom_kernels: true, ..Dom::default() };
     sc.config = gen_config(&mut rng, &dom);
     sc.signal = gen_signal(&mut rng);
     let n = ops_budget(&sc.config, tier_budget(tier) * 0.5, 5, q(tier, 40, 80), &mut rng);
@@ -679,7 +679,7 @@ fn flush_liveness(out: &mut Outcome, sc: &Scenario) {
                 }
                 // counts must be observable (the allocating wrappers cannot report them when every channel is masked)
                 let op = &match op {
-                    Op::Process { path, valid, slack_in, slack_out, slices } => Op::Process { path: if path.is_partial() { Path::PartialInto } else { Path::IntoBuffer }, valid: *valid, slack_in: *slack_in, slack_out: *slack_out, slices: *slices },
+                    Op::Process { path, valid, slack_in, slack_out, slices, ragged } => Op::Process { path: if path.is_partial() { Path::PartialInto } else { Path::IntoBuffer }, valid: *valid, slack_in: *slack_in, slack_out: *slack_out, slices: *slices, ragged: *ragged },
                     o => o.clone(),
                 };
                 r.step(i, op);
@@ -704,7 +704,7 @@ fn flush_liveness(out: &mut Outcome, sc: &Scenario) {
         let max_calls = zreq as usize + (want - r.trace.total_out as f64).max(0.0) as usize + 10;
         let mut calls = 0usize;
         let consumed0 = r.trace.consumed;
-        let zeros_op = Op::Process { path: Path::PartialInto, valid: Some(0), slack_in: 0, slack_out: 0, slices: false };
+        let zeros_op = Op::Process { path: Path::PartialInto, valid: Some(0), slack_in: 0, slack_out: 0, slices: false, ragged: 0 };
         while (((r.trace.consumed - consumed0) as f64) < zreq && (r.trace.total_out as f64) < want) && calls < max_calls {
             r.step(sc.ops.len() + calls, &zeros_op);
             calls += 1;
@@ -1205,7 +1205,7 @@ fn gen_c06(seed: u64, tier: Tier) -> Scenario {
     let ops: Vec<Op> = ops
         .into_iter()
         .map(|o| match o {
-            Op::Process { slack_in, slack_out, slices, .. } => Op::Process { path: Path::IntoBuffer, valid: None, slack_in, slack_out, slices },
+            Op::Process { slack_in, slack_out, slices, .. } => Op::Process { path: Path::IntoBuffer, valid: None, slack_in, slack_out, slices, ragged: 0 },
             x => x,
         })
         .collect();
@@ -1281,7 +1281,8 @@ fn eval_c06(sc: &Scenario) -> Outcome {
                 for j in 0..*n_out {
                     let v = y[b0 + j];
                     maxabs = maxabs.max(v.abs());
-                    let tol = if cfg.f32 { 8.0 * (f32::EPSILON as f64) * maxabs.max(64.0) } else { 1e-9 * maxabs.max(1.0) };
+                    // the recovered instants are stream positions up to `maxabs`: their rounding noise is a few ulps of that
+                    let tol = if cfg.f32 { 8.0 * (f32::EPSILON as f64) * maxabs.max(64.0) } else { 64.0 * f64::EPSILON * maxabs.max(64.0) + 1e-12 };
                     if !(v >= half) {
                         // start-up transient: window still overlaps the zero pre-roll
                         if prev.is_some() {
@@ -1302,14 +1303,23 @@ fn eval_c06(sc: &Scenario) -> Outcome {
                                 out.push("C06", "instant-not-increasing", s.op, format!("frame {} of the call (stream frame {}): instant {} after {} (spacing {})", j, b0 + j, v, p, sp));
                                 return out;
                             }
-                            if sp < lo * (1.0 - 1e-9) - tol || sp > hi * (1.0 + 1e-9) + tol {
+                            if sp < lo * (1.0 - 1e-12) - tol || sp > hi * (1.0 + 1e-12) + tol {
                                 out.push(
                                     "C06",
                                     "spacing-out-of-band",
                                     s.op,
-                                    format!("frame {} of the call (stream frame {}): instants {} -> {}, spacing {} outside [1/r_new, 1/r_old] = [{}, {}] ({}; a point computed over stale storage is offset by 1e3 times its weight)", j, b0 + j, p, v, sp, lo, hi, if ramped { "ramped call" } else { "constant-ratio call" }),
+                                    format!("frame {} of the call (stream frame {}): instants {} -> {}, spacing {} outside [1/r_new, 1/r_old] = [{}, {}] ({}; a point computed over stale storage is offset by 0.01 times its weight)", j, b0 + j, p, v, sp, lo, hi, if ramped { "ramped call" } else { "constant-ratio call" }),
                                 );
                                 return out;
+                            }
+                            if ramped && last_sp.is_none() && j <= 1 {
+                                // "moves from old towards new during the next chunk": with at least 8 frames expected in the
+                                // chunk the first step is at most 1/8 of the way, so the first spacing is on the old side
+                                let expected_frames = if cfg.kind.fixed_out() { s.pre.out_next as f64 } else { s.pre.in_next as f64 * 0.5 * (cur + target) };
+                                if expected_frames >= 8.0 && *n_out >= 4 && (sp - t_old).abs() > (sp - t_new).abs() + 2.0 * tol {
+                                    out.push("C06", "ramp-does-not-start-at-old-ratio", s.op, format!("first spacing of the ramped call is {} while ramping {} -> {} over ~{} frames", sp, t_old, t_new, expected_frames));
+                                    return out;
+                                }
                             }
                             if ramped {
                                 // monotone from old towards new
@@ -1363,7 +1373,13 @@ fn gen_c15(seed: u64, tier: Tier) -> Scenario {
         1 => Signal::Impulses { seed: rng.next(), period: rng.usize_in(2, 40) as u32, floor: 0.0 },
         2 => Signal::Wide { seed: rng.next() },
         3 => gen_tiny(&mut rng),
-        _ => Signal::Multisine { seed: rng.next() },
+        _ => {
+            if rng.chance(0.4) {
+                Signal::NanSparse { seed: rng.next() }
+            } else {
+                Signal::Multisine { seed: rng.next() }
+            }
+        }
     };
     let n = ops_budget(&sc.config, tier_budget(tier) * 0.12, 3, q(tier, 24, 48), &mut rng);
     let mut m = OpMix::swarm(&mut rng, n);
